@@ -74,8 +74,42 @@
   (buffer/push b m1)
   b)
 
+(defn derive-image
+  "mk k -> image of a value nested k deep whose encoding is  H A^k D B^k T ; returns n -> image nested n deep"
+  [mk]
+  (def m1 (string (mk 1))) (def m2 (string (mk 2))) (def m3 (string (mk 3)))
+  (def d (- (length m2) (length m1)))
+  (unless (= d (- (length m3) (length m2))) (error "image not regular"))
+  (var found nil)
+  (for p 0 (+ 1 (length m1))
+    (for a 0 (+ d 1)
+      (def b (- d a))
+      (for q p (+ 1 (length m1))
+        (unless found
+          (def A (string/slice m2 p (+ p a)))
+          (def B (string/slice m2 (+ q a) (+ q a b)))
+          (when (and (= m2 (string (string/slice m1 0 p) A (string/slice m1 p q) B (string/slice m1 q)))
+                     (= m3 (string (string/slice m1 0 p) A A (string/slice m1 p q) B B (string/slice m1 q))))
+            (set found [p q A B]))))))
+  (unless found (error "no regular split of the image"))
+  (def [p q A B] found)
+  (fn [n] (string (string/slice m1 0 p) (string/repeat A (- n 1)) (string/slice m1 p q) (string/repeat B (- n 1)) (string/slice m1 q))))
+
+(defn peg-nest [k] (var p (peg/compile "a")) (for i 0 k (set p (peg/compile ~(/ "a" ,p)))) (marshal p))
+(defn def-nest [k]
+  (var d @{:arity 0 :bytecode @[['ldn 0] ['ret 0]]})
+  (for i 0 k (set d @{:arity 0 :bytecode @[['ldn 0] ['ret 0]] :closures @[d]}))
+  (marshal (asm d)))
+
 (def consumers
-  @{"parse" (fn [n]
+  @{"unmarshal-defs" (fn [n] (unmarshal ((derive-image def-nest) n)) nil)
+    "unmarshal-abstract" (fn [n] (unmarshal ((derive-image peg-nest) n)) nil)
+    "compile-destructure-head" (fn [n]
+                                 (def pat (build "btuple" n 'x))
+                                 (def val (build "btuple" n 1))
+                                 (def r (compile (tuple 'do (tuple 'def pat val) 1) (curenv)))
+                                 (if (function? r) nil (error (r :error))))
+    "parse" (fn [n]
               (def [o c] (as-form-kind))
               (def src (string (repeat-str o n) "1" (repeat-str c n)))
               (def p (parser/new))
